@@ -2,6 +2,7 @@ package props
 
 import (
 	"fmt"
+	"strings"
 	"testing"
 
 	"github.com/hashicorp/go-argmapper/verifharness/engine"
@@ -451,6 +452,9 @@ func evalC13(c *engine.Case) engine.Verdict {
 			v.Failf("error's Func is not the target")
 		}
 		msg := o.Err.Error()
+		if strings.Contains(msg, "%") {
+			v.Class("message-with-percent-sign")
+		}
 		for _, a := range ua.Args {
 			if !contains(msg, a.String()) {
 				v.Failf("error message does not mention missing argument %s", a.String())
@@ -484,6 +488,13 @@ func genC13(g engine.G) *engine.Case {
 	o := engine.DefaultFuncOpts()
 	o.AllowOnce = true
 	pal := engine.GenPalette(g, true, true)
+	if g.Pct(20) {
+		// names and subtype labels are free-form strings (struct tags, Named
+		// options): formatting verbs in them must come out of the message as
+		// they went in
+		pal.Names = append([]string{"disk%used", "100%", "%s", "a%d%%"}[:g.Int(1, 4)], pal.Names[:g.Int(1, len(pal.Names))]...)
+		pal.Subs, pal.SubP = []string{"s", "%v", "s%dt"}, 40
+	}
 	b := engine.NewBuilder(g, pal, o)
 	b.Sc.Target = engine.GenTarget(g, pal, 4, o)
 	for _, p := range b.Sc.Target.In {
